@@ -2,6 +2,7 @@ import Model.Transfer
 import Proofs.F32Ops
 import Proofs.Cbrt
 import Proofs.Expf
+import Proofs.ExpfTop
 import Mathlib.Data.Nat.Cast.Order.Field
 /-! C18 (and the float->int part of C07 / C13): the fast math helpers are total. `exp2` is the only place where the
 crates convert a float to an integer without a check; the theorem below shows that, for EVERY 32-bit pattern (NaN,
@@ -325,5 +326,17 @@ theorem expf_underflow (B : Build) (hB : B.fastmath = true) (x : Nat) (hx : F32.
   have : MathM.expf B x = MathM.expfFast B.fma x := by unfold MathM.expf; rw [if_pos hB]
   rw [this]
   exact Expf.expf_lo B.fma x hx h1 h2
+
+
+/-- **expf, overflow clause**: with fastmath, for every finite `x` with `89 ≤ x ≤ 1e38`, `expf` returns `+inf` (the bit
+pattern `0x7f800000`). `LOG2_E * x ≥ 128.39`; `exp2` of its integer part is `+inf` as soon as that part is 129 or more
+(the exponent-field construction yields the bit pattern of infinity), and for 128 it is at least `1.99 * 2^127` while the
+second factor is at least 1.25, so the product is at least `2^128` and rounds to infinity (`F32.mul_over_pos`). -/
+theorem expf_overflow (B : Build) (hB : B.fastmath = true) (x : Nat) (hx : F32.Finite x)
+    (h1 : 89 ≤ F32.toReal x) (h2 : F32.toReal x ≤ (10:ℝ) ^ 38) :
+    MathM.expf B x = .ok 0x7f800000 := by
+  have : MathM.expf B x = MathM.expfFast B.fma x := by unfold MathM.expf; rw [if_pos hB]
+  rw [this, Expf.expf_hi B.fma x hx h1 h2]
+  rfl
 
 end C18
